@@ -265,6 +265,20 @@ def verdictC10 (cfg : LiveCfg) (openBefore : Bool) (concBefore concFbBefore : In
     else if !(fbEvents o.emits).isEmpty then some "fallback event recorded for a panicking fallback"
     else none
 
+/-! #### C02 (circuit level) — only a failed or timed-out call can open the circuit; bad requests, interrupts,
+     short-circuits and rejections never do -/
+def verdictC02 (cfg : LiveCfg) (op : ExecOp) (o : ExecObs) : Option String :=
+  if cfg.disabled then none else
+  if !(notifs o.emits).contains true then none else
+  match op.run with
+  | none => some "a call without a run function opened the circuit"
+  | some sc =>
+    if o.runCalls = 0 then some "a call that did not run opened the circuit"
+    else
+      let k := expectedExecutedKind cfg op sc
+      if k == .failure || k == .timeout then none
+      else some "the circuit opened on a call that is neither a failure nor a timeout"
+
 /-! #### C09 — notifications mirror transitions (history-level bookkeeping: last notification so far) -/
 /-- `last` = the last notification before this operation (none: never notified; true: Opened) -/
 def verdictC09 (cfg : LiveCfg) (last : Option Bool) (emits : List Emit) (openAfter : Bool) (fanOk : Bool) : Option String :=
